@@ -50,7 +50,18 @@ def parse_log(text):
         "covers_sat": None, "covers_total": None,
     }
     compile_error = False
+    pending_desc = None
     for line in text.splitlines():
+        if pending_desc is not None:
+            # multi-line description: continues until a line ending with the closing quote
+            if line.rstrip().endswith('"'):
+                pending_desc.append(line.rstrip()[:-1])
+                if cur is not None:
+                    cur["desc"] = " ".join(x.strip() for x in pending_desc)
+                pending_desc = None
+            else:
+                pending_desc.append(line)
+            continue
         m = CHECK_RE.match(line)
         if m:
             cur = {"n": int(m.group(1)), "name": m.group(2), "status": None, "desc": "", "loc": ""}
@@ -64,6 +75,9 @@ def parse_log(text):
             m = DESC_RE.match(line)
             if m:
                 cur["desc"] = m.group(1)
+                continue
+            if line.startswith("\t - Description: \"") and not line.rstrip().endswith('"'):
+                pending_desc = [line.split('Description: "', 1)[1]]
                 continue
             m = LOC_RE.match(line)
             if m:
